@@ -149,7 +149,7 @@ def run(chk, tier, scale=1.0):
         cfg = pcommon.random_config(rng, want_class=(rng.random() < 0.2))
         jobs.append(dict(build=b, config=cfg.to_json(), seed=rng.randrange(1 << 30), n=3000, ids=list(range(1, nids + 1)), props=PROPS,
                          opts={"weights": {"stats": 6, "announce": 14, "reannounce": 5, "disconnect": 6, "registered": 3, "stray": 2}, "max_open": nids},
-                         leaks=True, shrink=False, want_sample=False))
+                         leaks=True, shrink=False, want_sample=(i < 2)))
     res = vcommon.pmap(prun.hist_worker, jobs)
     prun.fold(chk, "C10", res, crash_is_violation=True)
     longs = [dict(build=b, seed=chk.seed * 77 + k, n=int((200000 if tier == "quick" else 2000000) * scale) // (1 if k == 0 else 4),
